@@ -734,20 +734,33 @@ def run(c):
 
 # ---------------------------------------------------------------- known finding
 
-def known_finding_input():
+def known_finding_inputs():
+    """signature -> (callable running the recorded minimal input, exception type that means 'still fails')"""
     from nutils import mesh
-    X, x = mesh.line(2, space='X'); Y, y = mesh.line(1, space='Y')
-    s = (X[:1].sample('gauss', 1) + X[1:].sample('gauss', 1)) * Y.sample('gauss', 1)
-    return s.take_elements(numpy.array([0]))
+
+    def sum_under_take():
+        X, x = mesh.line(2, space='X'); Y, y = mesh.line(1, space='Y')
+        s = (X[:1].sample('gauss', 1) + X[1:].sample('gauss', 1)) * Y.sample('gauss', 1)
+        s.take_elements(numpy.array([0])).integrate(1.)
+
+    def empty_factor():
+        X, x = mesh.rectilinear([1, 1], space='X'); Y, y = mesh.line(2, space='Y')
+        (X.sample('uniform', 2) * Y.sample('gauss', 1).take_elements(numpy.array([], dtype=int))).eval(x[0])
+
+    return {KNOWN_SIG: (sum_under_take, NotImplementedError), EMPTY_MUL_SIG: (empty_factor, AssertionError)}
 
 
 def stream_known_finding(c):
+    inputs = known_finding_inputs()
     for e in c.findings:
-        if e.get('status') == 'open' and e.get('signature') == KNOWN_SIG:
+        if e.get('status') == 'open' and e.get('signature') in inputs:
+            fn, exc = inputs[e['signature']]
             try:
-                known_finding_input().integrate(1.)
+                with warnings.catch_warnings():
+                    warnings.simplefilter('ignore')
+                    fn()
                 still = False
-            except NotImplementedError:
+            except exc:
                 still = True
             except Exception:
                 still = False
